@@ -158,6 +158,29 @@ theorem flusher_ticks_irrelevant_on_disk (cfg cfg' : Cfg) (hrot : cfg'.rot = cfg
   refine ⟨hv, ?_⟩
   rw [← parts_flatten, ← parts_flatten, hv]
 
+/-- the configuration a case runs with once its `MODE` line named the public mode `m`
+    (the driver's `St.patch`) -/
+def withMode (cfg : Cfg) (m : WMode) : Cfg := { cfg with cap := m.buffersize }
+
+/-- **Every public write mode leaves the same files.** For any two public `WriteMode` variants —
+    defaults or explicit capacities, with or without a flusher whose ticks fall anywhere — the files
+    after the same writes, forced rotations and shutdowns are the same. (For the asynchronous
+    modes this is the statement about the writer thread, which works the channel off in order;
+    `Conc.shutdown_drains` supplies the order.) -/
+theorem public_modes_same_files (cfg : Cfg) (m m' : WMode) (ha : cfg.append = false) (hn : NoCleanup cfg)
+    (ops ops' : List (Op × Nat × Faults)) (hp : PlainHistory ops) (hp' : PlainHistory ops')
+    (h : dropFlush ops = dropFlush ops') :
+    viewFiles (runOps (init (withMode cfg m') []) ops') = viewFiles (runOps (init (withMode cfg m) []) ops) :=
+  flusher_ticks_irrelevant_across_modes (withMode cfg m) (withMode cfg m') rfl ha
+    (fun r hr => hn r hr) ha (fun r hr => hn r hr) ops ops' hp hp' h
+
+/-- the logger's split does not change the files either: what the `Logger` hands to its file
+    writer (`without_flushing`) has the capacity of the mode the user chose -/
+theorem logger_split_same_cfg (cfg : Cfg) (m : WMode) :
+    withMode cfg m.loggerSplit.1 = withMode cfg m := by
+  unfold withMode WMode.loggerSplit
+  rw [withoutFlushing_buffersize]
+
 /-! ### non-vacuity: a buffered run with two ticks against the direct run without them -/
 
 def rot : RotCfg := ⟨some 3, none, .numbers, none⟩
